@@ -212,6 +212,31 @@ func (v *VC04) WaitGone() bool {
 	}
 }
 
+// WaitClean waits until the introducer loop's gc.clean (which runs after the introduction was acknowledged to
+// the flusher/merger) has removed the superseded manifest: at most one "*.snp" file is left.
+func (v *VC04) WaitClean() bool {
+	deadline := time.Now().Add(10 * time.Second)
+	for {
+		ee, err := os.ReadDir(v.Root)
+		if err != nil {
+			return false
+		}
+		n := 0
+		for _, e := range ee {
+			if !e.IsDir() && strings.HasSuffix(e.Name(), snapshotSuffix) {
+				n++
+			}
+		}
+		if n <= 1 {
+			return true
+		}
+		if time.Now().After(deadline) {
+			return false
+		}
+		time.Sleep(200 * time.Microsecond)
+	}
+}
+
 // Dump renders the current snapshot: "epoch=<hex> parts=<id>:<m|f>:<batch,...>;..." and reads every block of
 // every part completely (all columns), so a part with a missing or truncated file panics here.
 func (v *VC04) Dump() string {
